@@ -92,29 +92,35 @@ theorem nnDur_nonneg {d : Int} (h : nnDur d = true) : 0 ≤ d := by
 
 /-! ## per tag -/
 
-theorem gok_optBr (tag : ATag) (len start : Option Nat) (hb : brOK len start = true)
+theorem gok_optBr (L : Bool) (tag : ATag) (len start : Option Nat) (hb : brOK len start = true)
+    (hL : L = true ∨ len = none)
     (hspec : (attrTable tag).find? (fun x => x.name == cs!"BYTERANGE") = some ⟨cs!"BYTERANGE", .quotedRange, false⟩) :
-    ∀ a ∈ optBr len start, GOK true (attrTable tag) a := by
+    ∀ a ∈ optBr len start, GOK L (attrTable tag) a := by
   intro a ha
   cases len with
   | none => simp [optBr] at ha
   | some l =>
     simp [optBr] at ha
     subst ha
+    have hL' : L = true := by
+      rcases hL with h | h
+      · exact h
+      · simp at h
+    subst hL'
     refine gok_u (P := brChar) ⟨by decide, by decide, by decide, by decide, _, hspec, ?_⟩ (byteRange_marshal_chars _)
       (by decide) (by decide)
     simp only [lexOK, Bool.true_and, isRange_of_brOK hb, Bool.or_true]
 
 section
-variable {C : Codec} (hC : C.Valid)
+variable {C : Codec} (hC : C.Valid) (L : Bool)
 include hC
 
-theorem Part.grammar {p : Part} (hw : wfPart p = true) :
-    checkAttrs true .part (renderAttrs (Part.attrs C p)) = true := by
+theorem Part.grammar {p : Part} (hw : wfPart p = true) (hL : L = true ∨ p.brLen = none) :
+    checkAttrs L .part (renderAttrs (Part.attrs C p)) = true := by
   simp only [wfPart, Bool.and_eq_true] at hw
   obtain ⟨⟨⟨hd, hu⟩, hq⟩, hb⟩ := hw
   have hdb := natAbs_lt_of_posDur hd
-  have hok : ∀ a ∈ Part.attrs C p, GOK true (attrTable .part) a := by
+  have hok : ∀ a ∈ Part.attrs C p, GOK L (attrTable .part) a := by
     intro a ha
     simp only [Part.attrs, List.mem_append, List.mem_cons, List.mem_nil_iff, or_false] at ha
     rcases ha with (((rfl | rfl) | ha) | ha) | ha
@@ -124,17 +130,17 @@ theorem Part.grammar {p : Part} (hw : wfPart p = true) :
     · split at ha
       · simp at ha; subst ha
         exact gok_u (P := fun c => c = 'Y' || c = 'E' || c = 'S')
-          ⟨by decide, by decide, by decide, by decide, ⟨cs!"INDEPENDENT", .enum [cs!"YES"], false⟩, rfl, by decide⟩
+          ⟨by decide, by decide, by decide, by decide, ⟨cs!"INDEPENDENT", .enum [cs!"YES"], false⟩, rfl, by simp [lexOK]⟩
           (by decide) (by decide) (by decide)
       · simp at ha
-    · exact gok_optBr .part _ _ hb rfl a ha
+    · exact gok_optBr L .part _ _ hb hL rfl a ha
     · split at ha
       · simp at ha; subst ha
         exact gok_u (P := fun c => c = 'Y' || c = 'E' || c = 'S')
-          ⟨by decide, by decide, by decide, by decide, ⟨cs!"GAP", .enum [cs!"YES"], false⟩, rfl, by decide⟩
+          ⟨by decide, by decide, by decide, by decide, ⟨cs!"GAP", .enum [cs!"YES"], false⟩, rfl, by simp [lexOK]⟩
           (by decide) (by decide) (by decide)
       · simp at ha
-  rw [checkAttrs_render true .part _ (by simp [Part.attrs]) hok]
+  rw [checkAttrs_render L .part _ (by simp [Part.attrs]) hok]
   · obtain ⟨d, uri, ind, brl, brs, gap⟩ := p
     cases ind <;> cases brl <;> cases gap <;> simp [Part.attrs, optBr, finalOK, attrTable, valText]
   · obtain ⟨d, uri, ind, brl, brs, gap⟩ := p
@@ -142,9 +148,9 @@ theorem Part.grammar {p : Part} (hw : wfPart p = true) :
 
 
 theorem Start.grammar {t : Int} (hw : signedDur t = true) :
-    checkAttrs true .start (renderAttrs [(cs!"TIME-OFFSET", AV.u (C.fmtDur t))]) = true := by
+    checkAttrs L .start (renderAttrs [(cs!"TIME-OFFSET", AV.u (C.fmtDur t))]) = true := by
   have hd := natAbs_lt_of_signedDur hw
-  rw [checkAttrs_render true .start _ (by simp)]
+  rw [checkAttrs_render L .start _ (by simp)]
   · simp [finalOK, attrTable, valText]
   · intro a ha
     simp at ha; subst ha
@@ -153,9 +159,9 @@ theorem Start.grammar {t : Int} (hw : signedDur t = true) :
   · simp [keysOf]
 
 theorem PartInf.grammar {t : Int} (hw : posDur t = true) :
-    checkAttrs true .partInf (renderAttrs [(cs!"PART-TARGET", AV.u (C.fmtDur t))]) = true := by
+    checkAttrs L .partInf (renderAttrs [(cs!"PART-TARGET", AV.u (C.fmtDur t))]) = true := by
   have hd := natAbs_lt_of_posDur hw
-  rw [checkAttrs_render true .partInf _ (by simp)]
+  rw [checkAttrs_render L .partInf _ (by simp)]
   · simp [finalOK, attrTable, valText]
   · intro a ha
     simp at ha; subst ha
@@ -165,20 +171,20 @@ theorem PartInf.grammar {t : Int} (hw : posDur t = true) :
 
 theorem ServerControl.grammar {t : ServerControl}
     (hw : (t.partHoldBack.all nnDur && t.canSkipUntil.all nnDur) = true) :
-    checkAttrs true .serverControl (renderAttrs (ServerControl.attrs C t)) = true := by
+    checkAttrs L .serverControl (renderAttrs (ServerControl.attrs C t)) = true := by
   obtain ⟨cbr, phb, csu⟩ := t
   simp only [Bool.and_eq_true] at hw
   by_cases hne : ServerControl.attrs C ⟨cbr, phb, csu⟩ = []
   · rw [hne]
     simp [renderAttrs, checkAttrs]
-  · have hok : ∀ a ∈ ServerControl.attrs C ⟨cbr, phb, csu⟩, GOK true (attrTable .serverControl) a := by
+  · have hok : ∀ a ∈ ServerControl.attrs C ⟨cbr, phb, csu⟩, GOK L (attrTable .serverControl) a := by
       intro a ha
       simp only [ServerControl.attrs, List.mem_append] at ha
       rcases ha with (ha | ha) | ha
       · split at ha
         · simp at ha; subst ha
           exact gok_u (P := fun c => c = 'Y' || c = 'E' || c = 'S')
-            ⟨by decide, by decide, by decide, by decide, ⟨cs!"CAN-BLOCK-RELOAD", .enum [cs!"YES"], false⟩, rfl, by decide⟩
+            ⟨by decide, by decide, by decide, by decide, ⟨cs!"CAN-BLOCK-RELOAD", .enum [cs!"YES"], false⟩, rfl, by simp [lexOK]⟩
             (by decide) (by decide) (by decide)
         · simp at ha
       · cases phb with
@@ -197,23 +203,24 @@ theorem ServerControl.grammar {t : ServerControl}
           exact gok_u (P := durChar) ⟨by decide, by decide, by decide, by decide, ⟨cs!"CAN-SKIP-UNTIL", .float, false⟩, rfl,
             isFloat_fmtDur hC (natAbs_lt_of_nnDur hd) (nnDur_nonneg hd)⟩ (durChar_fmtDur hC (natAbs_lt_of_nnDur hd))
             (by decide) (by decide)
-    rw [checkAttrs_render true .serverControl _ hne hok]
+    rw [checkAttrs_render L .serverControl _ hne hok]
     · simp [finalOK, attrTable]
     · cases cbr <;> cases phb <;> cases csu <;> simp [ServerControl.attrs, keysOf]
 
 end
 
-theorem MapTag.grammar {t : MapTag} (hw : (t.uri != [] && quotedOK t.uri && brOK t.brLen t.brStart) = true) :
-    checkAttrs true .map (renderAttrs (MapTag.attrs t)) = true := by
+theorem MapTag.grammar (L : Bool) {t : MapTag} (hw : (t.uri != [] && quotedOK t.uri && brOK t.brLen t.brStart) = true)
+    (hL : L = true ∨ t.brLen = none) :
+    checkAttrs L .map (renderAttrs (MapTag.attrs t)) = true := by
   simp only [Bool.and_eq_true] at hw
   obtain ⟨⟨hu, hq⟩, hb⟩ := hw
-  have hok : ∀ a ∈ MapTag.attrs t, GOK true (attrTable .map) a := by
+  have hok : ∀ a ∈ MapTag.attrs t, GOK L (attrTable .map) a := by
     intro a ha
     simp only [MapTag.attrs, List.mem_append, List.mem_cons, List.mem_nil_iff, or_false] at ha
     rcases ha with rfl | ha
     · exact gok_q ⟨by decide, by decide, by decide, by decide, ⟨cs!"URI", .quoted, true⟩, rfl, rfl⟩ hq
-    · exact gok_optBr .map _ _ hb rfl a ha
-  rw [checkAttrs_render true .map _ (by simp [MapTag.attrs]) hok]
+    · exact gok_optBr L .map _ _ hb hL rfl a ha
+  rw [checkAttrs_render L .map _ (by simp [MapTag.attrs]) hok]
   · obtain ⟨uri, brl, brs⟩ := t
     cases brl <;> simp [MapTag.attrs, optBr, finalOK, attrTable, valText]
   · obtain ⟨uri, brl, brs⟩ := t
@@ -221,10 +228,10 @@ theorem MapTag.grammar {t : MapTag} (hw : (t.uri != [] && quotedOK t.uri && brOK
 
 theorem digits_all (n : Nat) : (formatNat n).all isDigit = true := (formatNat_spec n).2.1
 
-theorem Skip.grammar {t : Int} (hw : int31 t = true) :
-    checkAttrs true .skip (renderAttrs [(cs!"SKIPPED-SEGMENTS", AV.u (formatInt t))]) = true := by
+theorem Skip.grammar (L : Bool) {t : Int} (hw : int31 t = true) :
+    checkAttrs L .skip (renderAttrs [(cs!"SKIPPED-SEGMENTS", AV.u (formatInt t))]) = true := by
   obtain ⟨h0, h1⟩ := int31_bounds hw
-  rw [checkAttrs_render true .skip _ (by simp)]
+  rw [checkAttrs_render L .skip _ (by simp)]
   · simp [finalOK, attrTable, valText]
   · intro a ha
     simp at ha; subst ha
@@ -234,17 +241,17 @@ theorem Skip.grammar {t : Int} (hw : int31 t = true) :
     exact digits_all _
   · simp [keysOf]
 
-theorem PreloadHint.grammar {t : PreloadHint}
+theorem PreloadHint.grammar (L : Bool) {t : PreloadHint}
     (hw : (t.uri != [] && quotedOK t.uri && u64 t.brStart && t.brLen.all u64) = true) :
-    checkAttrs true .preloadHint (renderAttrs (PreloadHint.attrs t)) = true := by
+    checkAttrs L .preloadHint (renderAttrs (PreloadHint.attrs t)) = true := by
   simp only [Bool.and_eq_true] at hw
   obtain ⟨⟨⟨hu, hq⟩, hs⟩, hl⟩ := hw
-  have hok : ∀ a ∈ PreloadHint.attrs t, GOK true (attrTable .preloadHint) a := by
+  have hok : ∀ a ∈ PreloadHint.attrs t, GOK L (attrTable .preloadHint) a := by
     intro a ha
     simp only [PreloadHint.attrs, List.mem_append, List.mem_cons, List.mem_nil_iff, or_false] at ha
     rcases ha with ((rfl | rfl) | ha) | ha
     · exact gok_u (P := fun c => c = 'P' || c = 'A' || c = 'R' || c = 'T')
-        ⟨by decide, by decide, by decide, by decide, ⟨cs!"TYPE", .enum [cs!"PART", cs!"MAP"], true⟩, rfl, by decide⟩
+        ⟨by decide, by decide, by decide, by decide, ⟨cs!"TYPE", .enum [cs!"PART", cs!"MAP"], true⟩, rfl, by simp [lexOK]⟩
         (by decide) (by decide) (by decide)
     · exact gok_q ⟨by decide, by decide, by decide, by decide, ⟨cs!"URI", .quoted, true⟩, rfl, rfl⟩ hq
     · split at ha
@@ -259,29 +266,29 @@ theorem PreloadHint.grammar {t : PreloadHint}
         rw [hbl] at hl
         exact gok_u (P := isDigit) ⟨by decide, by decide, by decide, by decide, ⟨cs!"BYTERANGE-LENGTH", .int, false⟩, rfl,
           isDecInt_formatNat (by simpa [u64] using hl)⟩ (digits_all _) (by decide) (by decide)
-  rw [checkAttrs_render true .preloadHint _ (by simp [PreloadHint.attrs]) hok]
+  rw [checkAttrs_render L .preloadHint _ (by simp [PreloadHint.attrs]) hok]
   · obtain ⟨uri, brs, brl⟩ := t
     by_cases h0 : brs = 0 <;> cases brl <;> simp [PreloadHint.attrs, finalOK, attrTable, valText, h0]
   · obtain ⟨uri, brs, brl⟩ := t
     by_cases h0 : brs = 0 <;> cases brl <;> simp [PreloadHint.attrs, keysOf, h0]
 
-theorem Key.grammar {k : Key} (hw : wfKey k = true) : checkAttrs true .key (renderAttrs (Key.attrs k)) = true := by
+theorem Key.grammar (L : Bool) {k : Key} (hw : wfKey k = true) : checkAttrs L .key (renderAttrs (Key.attrs k)) = true := by
   obtain ⟨m, uri, iv, kf, kfv⟩ := k
   unfold wfKey at hw
   by_cases hm : m = methodNone
   · subst hm
-    rw [checkAttrs_render true .key _ (by simp [Key.attrs])]
+    rw [checkAttrs_render L .key _ (by simp [Key.attrs])]
     · simp [Key.attrs, finalOK, attrTable, valText, methodNone]
     · intro a ha
       simp [Key.attrs] at ha
       subst ha
       exact gok_u (P := fun c => c = 'N' || c = 'O' || c = 'E')
         ⟨by decide, by decide, by decide, by decide, ⟨cs!"METHOD", .enum [cs!"NONE", cs!"AES-128", cs!"SAMPLE-AES"], true⟩,
-          rfl, by decide⟩ (by decide) (by decide) (by decide)
+          rfl, by simp [lexOK, methodNone, methodAES128, methodSampleAES]⟩ (by decide) (by decide) (by decide)
     · simp [Key.attrs, keysOf]
   · simp only [hm, ↓reduceIte, Bool.and_eq_true, Bool.or_eq_true, decide_eq_true_eq] at hw
     obtain ⟨⟨⟨⟨⟨hmm, hu⟩, hq⟩, hiv⟩, hkf⟩, hkfv⟩ := hw
-    have hok : ∀ a ∈ Key.attrs ⟨m, uri, iv, kf, kfv⟩, GOK true (attrTable .key) a := by
+    have hok : ∀ a ∈ Key.attrs ⟨m, uri, iv, kf, kfv⟩, GOK L (attrTable .key) a := by
       intro a ha
       simp only [Key.attrs, hm, ne_eq, not_false_eq_true, ↓reduceIte, List.mem_append, List.mem_cons,
         List.mem_nil_iff, or_false] at ha
@@ -289,10 +296,10 @@ theorem Key.grammar {k : Key} (hw : wfKey k = true) : checkAttrs true .key (rend
       · rcases hmm with rfl | rfl
         · exact gok_u (P := fun c => c = 'A' || c = 'E' || c = 'S' || c = '-' || c = '1' || c = '2' || c = '8')
             ⟨by decide, by decide, by decide, by decide, ⟨cs!"METHOD", .enum [cs!"NONE", cs!"AES-128", cs!"SAMPLE-AES"], true⟩,
-              rfl, by decide⟩ (by decide) (by decide) (by decide)
+              rfl, by simp [lexOK, methodNone, methodAES128, methodSampleAES]⟩ (by decide) (by decide) (by decide)
         · exact gok_u (P := fun c => c = 'A' || c = 'E' || c = 'S' || c = '-' || c = 'M' || c = 'P' || c = 'L')
             ⟨by decide, by decide, by decide, by decide, ⟨cs!"METHOD", .enum [cs!"NONE", cs!"AES-128", cs!"SAMPLE-AES"], true⟩,
-              rfl, by decide⟩ (by decide) (by decide) (by decide)
+              rfl, by simp [lexOK, methodNone, methodAES128, methodSampleAES]⟩ (by decide) (by decide) (by decide)
       · exact gok_q ⟨by decide, by decide, by decide, by decide, ⟨cs!"URI", .quoted, false⟩, rfl, rfl⟩ hq
       · split at ha
         · rename_i hne
@@ -310,7 +317,7 @@ theorem Key.grammar {k : Key} (hw : wfKey k = true) : checkAttrs true .key (rend
         · simp at ha; subst ha
           exact gok_q ⟨by decide, by decide, by decide, by decide, ⟨cs!"KEYFORMATVERSIONS", .quoted, false⟩, rfl, rfl⟩ hkfv
         · simp at ha
-    rw [checkAttrs_render true .key _ (by simp [Key.attrs]) hok]
+    rw [checkAttrs_render L .key _ (by simp [Key.attrs]) hok]
     · rcases hmm with rfl | rfl <;> by_cases h1 : iv = [] <;> by_cases h2 : kf = [] <;> by_cases h3 : kfv = [] <;>
         simp [Key.attrs, finalOK, attrTable, valText, methodNone, methodAES128, methodSampleAES, h1, h2, h3]
     · rcases hmm with rfl | rfl <;> by_cases h1 : iv = [] <;> by_cases h2 : kf = [] <;> by_cases h3 : kfv = [] <;>
